@@ -30,7 +30,9 @@ def noisy_number(rng):
     """a short decimal n/d and a double a few ulps away from it: the number Excel shows (15 significant digits) is n/d,
     so its text form is the text form of n/d (10.1+0.2 is 10.3, not 10.299999999999999)"""
     d = rng.choice([1, 2, 4, 5, 10, 10, 100, 1000])
-    n = rng.choice([1, 3, 7, 103, 205, 999, 1001, 12345, 99999, 314159]) * rng.choice([1, 1, -1])
+    n = rng.choice([1, 3, 7, 103, 205, 999, 1001, 12345, 99999, 314159, 0, 0]) * rng.choice([1, 1, -1])
+    if n == 0:      # the double -0.0 (what 0/-5 or -2.5*0 computes): the number zero, whose text form is "0"
+        return {'t': 'num', 'n': 0, 'd': 1}, 0
     if abs(n) >= d * 10 ** 6:
         n = n // 1000
     return {'t': 'num', 'n': n, 'd': d}, rng.choice([-2, -1, 1, 2])
@@ -90,6 +92,8 @@ def _noisy(a, ulps, spelling):
     import math
     L = calls.xl.lib()
     x = a['n'] / a['d']
+    if ulps == 0:
+        x = -0.0
     for _ in range(abs(ulps)):
         x = math.nextafter(x, math.inf if ulps > 0 else -math.inf)
     return L.ft.Number(x) if spelling == 'wrapped' else x
